@@ -287,22 +287,31 @@ func checkC01(c *Ctx) {
 		fmt.Sprintf("client puts query-annotated fields into the URL for %v but sends no body for %v: fields of the other verbs have no carrier", cliQuery, comp(bodySrv)), nil)
 	r.CheckD(sameSet(valBodiless, comp(bodySrv)), "R01b", "generation-time coverage check applies to exactly the bodiless verbs", p3,
 		fmt.Sprintf("ValidateMethodConfig demands full path/query coverage for %v while the bodiless verbs are %v", valBodiless, comp(bodySrv)), nil)
-	// the five verbs are all there are
+	// the five verbs are all there are: HTTPMethodToString is interpreted on every value of the enum (and one
+	// value outside it); how the function is written (switch, lookup table) does not matter
 	if f := c.P.Func("internal/annotations", "HTTPMethodToString"); f != nil {
-		var verbs []string
-		ast.Inspect(c.P.Decls[f].Body, func(n ast.Node) bool {
-			if ret, ok := n.(*ast.ReturnStmt); ok && len(ret.Results) == 1 {
-				if tv, ok := c.P.DeclPkg[f].TypesInfo.Types[ret.Results[0]]; ok && tv.Value != nil {
-					verbs = append(verbs, strings.Trim(tv.Value.ExactString(), `"`))
-				}
-			}
-			return true
-		})
+		c.W.Concrete = true
+		want := map[int64]string{0: "POST", 1: "GET", 2: "POST", 3: "PUT", 4: "DELETE", 5: "PATCH", 99: "POST"}
+		labels := map[int64]string{0: "HttpMethod_HTTP_METHOD_UNSPECIFIED", 1: "HttpMethod_HTTP_METHOD_GET", 2: "HttpMethod_HTTP_METHOD_POST", 3: "HttpMethod_HTTP_METHOD_PUT", 4: "HttpMethod_HTTP_METHOD_DELETE", 5: "HttpMethod_HTTP_METHOD_PATCH", 99: "99"}
+		var bad []string
 		set := map[string]bool{}
-		for _, v := range verbs {
-			set[v] = true
+		pname := c.P.Decls[f].Type.Params.List[0].Names[0].Name
+		for _, n := range []int64{0, 1, 2, 3, 4, 5, 99} {
+			run := c.W.NewRun(map[string]int{}, false)
+			run.InlineAll, run.FollowSlices = true, true
+			run.StartArgs(f, map[string]Val{pname: VInt{N: n, Label: labels[n]}})
+			got := "?"
+			if len(run.Used) == 0 && run.Aborted == "" {
+				got = valText(run.Result)
+			}
+			set[got] = true
+			if got != want[n] {
+				bad = append(bad, fmt.Sprintf("%s → %s (documented: %s)", labels[n], got, want[n]))
+			}
 		}
-		r.Check(sameSet(sortedKeys(set), all), "R01b", "the verb vocabulary is {GET,POST,PUT,DELETE,PATCH}", c.P.Pos(c.P.Decls[f].Pos()), fmt.Sprintf("HTTPMethodToString yields %v", sortedKeys(set)))
+		c.W.Concrete = false
+		r.Check(len(bad) == 0 && sameSet(sortedKeys(set), all), "R01b", "the verb vocabulary is {GET,POST,PUT,DELETE,PATCH}", c.P.Pos(c.P.Decls[f].Pos()),
+			fmt.Sprintf("HTTPMethodToString evaluated on every enum value: %s", strings.Join(bad, "; ")))
 	}
 	r.OK("R01b", "verb sets extracted from the condition syntax trees", "")
 
